@@ -128,6 +128,13 @@ class SemScale:
         return int(ast) * self.k
 
 
+class SemNone:
+    """a semantics object without any action: nothing TatSu caches for it keeps it alive, so its id() is reused soon"""
+
+    def __init__(self):
+        self.k = 0   # same instance layout as SemScale: a freed SemNone's address suits the next SemScale
+
+
 class SemInfo:
     """an action that asks for the parseinfo keyword"""
 
@@ -179,6 +186,7 @@ SEM_FACTORIES = {
     'scale2': lambda: SemScale(2),
     'scale3': lambda: SemScale(3),
     'info': lambda: SemInfo(),
+    'none': lambda: SemNone(),
 }
 
 
@@ -591,6 +599,9 @@ def _shapes():
         ('compile', {}, None, {}, 'b2'),
     ]
     S['plain'] = [
+        ('compile', {}, None, {'semantics': 'none'}, 'g0'),
+        ('api', {'semantics': 'none'}, None, None, 'g0'),
+        ('gen', {}, {}, {'semantics': 'none'}, 'g0'),
         ('compile', {}, None, {}, 'g0'),
         ('compile', {'semantics': 'upper'}, None, {}, 'g0'),
         ('compile', {'semantics': 'scale2'}, None, {}, 'g0'),
